@@ -144,6 +144,14 @@ def _compare_view(f, subst=False, maxdepth=4):
                 and not isinstance(a.value, (ast.Constant, ast.List, ast.Dict, ast.Set)) and not (isinstance(a.value, ast.Call) and norm(a.value.func) == "next"):
             defs[a.targets[0].id] = a.value
 
+    # for key, value in D.items():   value is D[key] (neither rebound in the loop)
+    for a in ast.walk(node):
+        if isinstance(a, ast.For) and isinstance(a.target, ast.Tuple) and len(a.target.elts) == 2 and all(isinstance(x, ast.Name) for x in a.target.elts) \
+                and isinstance(a.iter, ast.Call) and isinstance(a.iter.func, ast.Attribute) and a.iter.func.attr == "items" and not a.iter.args:
+            k_, v_ = a.target.elts
+            if counts.get(k_.id) == 6 and counts.get(v_.id) == 6:  # bound by this loop header only (1 as a store + 5 as a loop target)
+                defs[v_.id] = ast.copy_location(ast.Subscript(value=copy_tree(a.iter.func.value), slice=ast.Name(id=k_.id, ctx=ast.Load()), ctx=ast.Load()), a)
+
     class S(ast.NodeTransformer):
         depth = 0
 
